@@ -47,6 +47,9 @@ const (
 )
 
 func (t lty) lean() string {
+	if l, ok := elemLean(t); ok {
+		return l
+	}
 	switch t {
 	case tK:
 		return "K"
@@ -79,6 +82,9 @@ func (t lty) lean() string {
 }
 
 func (t lty) zero() string {
+	if z, ok := elemZero(t); ok {
+		return z
+	}
 	switch t {
 	case tK, tG:
 		return "0"
@@ -103,6 +109,7 @@ type loopFn struct {
 	hasTr   bool   // takes (and mutates) the transcript: it is returned as the last component
 	flat    []int  // for each Go parameter, how many Lean parameters it was flattened into
 	structBase []string // for each Go parameter, its name (prefix of the flattened Lean names)
+	retVar  string // element mode: the variable whose final value is the result ("" if none)
 }
 
 // struct parameters are flattened into their fields
@@ -140,6 +147,7 @@ type loopTr struct {
 	labelPrefix string
 	preVars map[string]lty // variables in scope at function entry besides the parameters
 	globals map[string]lty // package-level variables emitted as Lean definitions
+	elem    bool           // element mode (elements.go)
 	curIV   string         // innermost loop variable
 	recv    func(iv string) string // translation of a channel receive inside the loop over `iv`
 	recvTy  lty
@@ -176,6 +184,11 @@ func goType(e ast.Expr) (lty, bool) {
 }
 
 func (t *loopTr) typeOf(e ast.Expr) lty {
+	if t.elem {
+		if ty, ok := t.elemType(e); ok {
+			return ty
+		}
+	}
 	switch x := e.(type) {
 	case *ast.ParenExpr:
 		return t.typeOf(x.X)
@@ -294,6 +307,11 @@ func (t *loopTr) lookupFn(goName string) *loopFn {
 
 // integer expression
 func (t *loopTr) intExpr(e ast.Expr) string {
+	if t.elem {
+		if v, ok := t.elemInt(e); ok {
+			return v
+		}
+	}
 	switch x := e.(type) {
 	case *ast.ParenExpr:
 		return "(" + t.intExpr(x.X) + ")"
@@ -356,6 +374,11 @@ func (t *loopTr) intExpr(e ast.Expr) string {
 
 // condition as a Lean Prop
 func (t *loopTr) condExpr(e ast.Expr) string {
+	if t.elem {
+		if v, ok := t.elemCond(e); ok {
+			return v
+		}
+	}
 	switch x := e.(type) {
 	case *ast.ParenExpr:
 		return "(" + t.condExpr(x.X) + ")"
@@ -472,6 +495,11 @@ func (t *loopTr) callExpr(c *ast.CallExpr) string {
 
 // value expression of any non-integer type (integers are delegated)
 func (t *loopTr) valExpr(e ast.Expr) string {
+	if t.elem {
+		if v, ok := t.elemVal(e); ok {
+			return v
+		}
+	}
 	switch x := e.(type) {
 	case *ast.ParenExpr:
 		return t.valExpr(x.X)
@@ -623,6 +651,18 @@ func (t *loopTr) assigned(stmts []ast.Stmt) []string {
 				e = x.X
 			case *ast.ParenExpr:
 				e = x.X
+			case *ast.StarExpr:
+				e = x.X
+			case *ast.SliceExpr:
+				if !t.elem {
+					return ""
+				}
+				e = x.X
+			case *ast.SelectorExpr:
+				if !t.elem {
+					return ""
+				}
+				e = x.X
 			case *ast.Ident:
 				return x.Name
 			default:
@@ -669,6 +709,22 @@ func (t *loopTr) assigned(stmts []ast.Stmt) []string {
 				}
 			case *ast.ExprStmt:
 				if c, ok := x.X.(*ast.CallExpr); ok {
+					if t.elem {
+						if exprStr(c.Fun) == "copy" && len(c.Args) == 2 {
+							if n := base(c.Args[0]); n != "" {
+								add(n)
+							}
+						} else if sel, ok := c.Fun.(*ast.SelectorExpr); ok {
+							if n := base(sel.X); n != "" {
+								add(n)
+							}
+							if sel.Sel.Name == "ToBigIntRegular" && len(c.Args) == 1 {
+								if n := base(c.Args[0]); n != "" {
+									add(n)
+								}
+							}
+						}
+					}
 					if sel, ok := c.Fun.(*ast.SelectorExpr); ok {
 						_, isMethod := fieldMethods[sel.Sel.Name]
 						if isMethod || sel.Sel.Name == "DomainSep" || sel.Sel.Name == "AppendPoint" || sel.Sel.Name == "AppendScalar" {
@@ -732,6 +788,9 @@ func hasJump(stmts []ast.Stmt) bool {
 
 // assign value v to the lvalue e
 func (t *loopTr) assign(ind string, lhs ast.Expr, v string, define bool, vty lty) {
+	if t.elem && t.elemAssign(ind, lhs, v) {
+		return
+	}
 	switch x := lhs.(type) {
 	case *ast.Ident:
 		if x.Name == "_" {
@@ -782,6 +841,14 @@ func (t *loopTr) assign(ind string, lhs ast.Expr, v string, define bool, vty lty
 func (t *loopTr) block(ind string, stmts []ast.Stmt, k string, cont string) {
 	for i, s := range stmts {
 		rest := stmts[i+1:]
+		if t.elem {
+			if handled, done := t.elemStmt(ind, s, rest, k, cont); handled {
+				if done {
+					return
+				}
+				continue
+			}
+		}
 		switch x := s.(type) {
 		case *ast.DeclStmt:
 			for _, sp := range x.Decl.(*ast.GenDecl).Specs {
@@ -1169,6 +1236,9 @@ func (t *loopTr) panicValue() string {
 }
 
 func (t *loopTr) returnValue(r *ast.ReturnStmt) string {
+	if t.elem {
+		return t.elemReturn(r)
+	}
 	res := r.Results
 	// `return MultiScalar(a, b)`: the callee's (value, error) pair is passed on
 	if t.cur.option && !t.cur.hasTr && len(res) == 1 {
